@@ -69,6 +69,7 @@ Expected(ev) ==
                                ELSE Convert(regs[ev.x], ev.u, mode)
       [] ev.op \in {"Add", "Sub", "Mul", "Div"} -> Bin(ev.op, regs[ev.x], regs[ev.y])
       [] ev.op = "Neg"      -> Neg(regs[ev.x], mode)
+      [] ev.op = "Clone"    -> regs[ev.x]            \* copy / deepcopy: the same quantity (same unit object)
       [] ev.op = "Abs"      -> AbsQ(regs[ev.x], mode)
       [] ev.op = "Cmp"      -> IF mc THEN CmpMC(ev.c, regs[ev.x], regs[ev.y]) ELSE Cmp(ev.c, regs[ev.x], regs[ev.y])
       [] ev.op = "Pow"      -> IF IsN(regs[ev.x])
@@ -79,7 +80,7 @@ Expected(ev) ==
       [] ev.op = "Sum"      -> SumQ([j \in DOMAIN ev.rs |-> regs[ev.rs[j]]], mode)
 
 \* registers an event reads
-Reads(ev) == (IF ev.op \in {"Convert", "Add", "Sub", "Mul", "Div", "Neg", "Abs", "Cmp", "Pow", "Quantize",
+Reads(ev) == (IF ev.op \in {"Convert", "Add", "Sub", "Mul", "Div", "Neg", "Abs", "Clone", "Cmp", "Pow", "Quantize",
                             "Round", "Alloc", "HashEq"} THEN {ev.x} ELSE {})
              \cup (IF ev.op \in {"Add", "Sub", "Mul", "Div", "Cmp", "Quantize", "HashEq"} THEN {ev.y} ELSE {})
              \cup (IF ev.op \in {"Sum", "Sort", "Alloc"} THEN {ev.rs[j] : j \in DOMAIN ev.rs} ELSE {})
